@@ -98,6 +98,8 @@ var c14Pairs = []c14pair{
 	{"current-output", "open('%TMP%', write, S, []), set_output(S) .", "current_output(S), findall(A, stream_property(S, alias(A)), L) ."},
 	{"current-input", "open('%TMP%', write, S0, []), close(S0), open('%TMP%', read, S, []), set_input(S) .", "current_input(S), findall(A, stream_property(S, alias(A)), L) ."},
 	{"dynamic", "assertz(counter(0)), retract(counter(0)), assertz(counter(5)) .", "catch(counter(X), error(E, _), true) ."},
+	{"standard-input", "get_char(_) .", "stream_property(S, alias(user_input)), stream_property(S, end_of_stream(X)) ."},
+	{"standard-output", "write(hello), nl .", "stream_property(S, alias(user_output)), stream_property(S, position(X)) ."},
 }
 
 func c14Observe(p *prolog.Interpreter, q string) string {
@@ -292,7 +294,7 @@ func runC14(outDir string, seed int64, tier string) {
 			}
 			// the change did happen in A (otherwise the check says nothing)
 			seenInA := c14Observe(a, pr.observe)
-			if seenInA == want && pr.name != "current-input" && pr.name != "current-output" {
+			if seenInA == want && pr.name != "current-input" && pr.name != "current-output" && pr.name != "standard-output" {
 				sum.Failures = append(sum.Failures, failure{ID: id, Class: "isolation:harness-change-had-no-effect", Input: desc, Observed: seenInA + " / " + changed, Expected: "a visible change in A"})
 			}
 			id++
@@ -300,7 +302,7 @@ func runC14(outDir string, seed int64, tier string) {
 	}
 	os.Remove(tmp)
 
-	sum.Rule = "rounds of 2-8 interpreters, one goroutine each, created, loaded with a program from eight parameterised families (recursion on lists, hanoi with output, findall/setof, atom construction, assert/retract loops, copy_term/functor/univ, facts over fresh atoms, catch and arithmetic), queried and writing to their own output at the same time: answers and output compared with the same program run alone; 8 goroutines interning the same previously unseen atom at the same moment, directly and through Exec+query of their own interpreter; sequential NewAtom histories compared with the model; eleven state changers (assertz, consult, op/3 twice, two flags, char_conversion, open with alias, set_output, set_input, retract) against observers in a second interpreter, sequentially and concurrently; the whole run is in a binary built with -race: any report of the race detector is a violation"
+	sum.Rule = "rounds of 2-8 interpreters, one goroutine each, created, loaded with a program from eight parameterised families (recursion on lists, hanoi with output, findall/setof, atom construction, assert/retract loops, copy_term/functor/univ, facts over fresh atoms, catch and arithmetic), queried and writing to their own output at the same time: answers and output compared with the same program run alone; 8 goroutines interning the same previously unseen atom at the same moment, directly and through Exec+query of their own interpreter; sequential NewAtom histories compared with the model; thirteen state changers (assertz, consult, op/3 twice, two flags, char_conversion, open with alias, set_output, set_input, retract) against observers in a second interpreter, sequentially and concurrently; the whole run is in a binary built with -race: any report of the race detector is a violation"
 	header := "From Coq Require Import ZArith List String.\nFrom PV Require Import Model.Shared Model.SharedCheck.\nImport ListNotations.\nOpen Scope Z_scope.\nOpen Scope string_scope.\n"
 	writeCases(filepath.Join(outDir, "cases_atoms.v"), header, "acase", "check_atoms", cases)
 	sum.CaseFiles = append(sum.CaseFiles, "cases_atoms.v")
